@@ -165,6 +165,7 @@ func runC14Child(e *emitter, tier string, seed uint64) {
 	mwRef := httptest.NewRecorder()
 	mkMW().ServeHTTP(mwRef, httptest.NewRequest("GET", "/page", nil))
 	sharedMW := mkMW()
+	sharedOnceWC := templ.NewOnceHandle(templ.WithComponent(tmpl.ScriptNonceSink("n")))
 	var wg sync.WaitGroup
 	for g := 0; g < G; g++ {
 		wg.Add(1)
@@ -174,6 +175,32 @@ func runC14Child(e *emitter, tier string, seed uint64) {
 			for i := 0; i < M; i++ {
 				s := c14Shared[r.intn(len(c14Shared))]
 				ref := refs[s.name]
+				if r.chance(1, 10) {
+					// two fragments converted for html/template, used after both conversions (and whatever the others render meanwhile)
+					other := c14Shared[r.intn(len(c14Shared))]
+					fa, ea := templ.ToGoHTML(context.Background(), s.c)
+					fb, eb := templ.ToGoHTML(context.Background(), other.c)
+					runtime.Gosched()
+					if ea == nil && string(fa) != ref.out {
+						report(fmt.Sprintf("%s: a converted fragment changed while other components were rendered (%d vs %d bytes)", s.name, len(fa), len(ref.out)))
+					}
+					if eb == nil && string(fb) != refs[other.name].out {
+						report(fmt.Sprintf("%s: a converted fragment changed while other components were rendered", other.name))
+					}
+					continue
+				}
+				if r.chance(1, 10) {
+					// one once handle with a component of its own, shared by all requests; every request has its own context (nonce)
+					nonce := fmt.Sprintf("n%d-%d", g, i)
+					mk := func() context.Context { return templ.WithNonce(templ.InitializeContext(context.Background()), nonce) }
+					var got, want bytes.Buffer
+					errG := sharedOnceWC.Once().Render(mk(), &got)
+					errW := templ.NewOnceHandle(templ.WithComponent(tmpl.ScriptNonceSink("n"))).Once().Render(mk(), &want)
+					if got.String() != want.String() || (errG == nil) != (errW == nil) {
+						report(fmt.Sprintf("shared once handle with a component: a render with its own context differs from the render of a handle of its own (%q vs %q)", got.String()[:min(60, got.Len())], want.String()[:min(60, want.Len())]))
+					}
+					continue
+				}
 				if r.chance(1, 8) {
 					rec := httptest.NewRecorder()
 					sharedMW.ServeHTTP(rec, httptest.NewRequest("GET", "/page", nil))
